@@ -1073,7 +1073,10 @@ def run_impl(case):
         or (is_grouped(q) and len(frows) < len(sols)) or (q["having"] is not None))
     stats["nontrivial"] = int(bool(nt))
     stats["answer_rows"] = len(rows)
-    return {"obs": obs_lines(case, vars_, rows), "viol": viol, "nontrivial": bool(nt), "key": text + repr(case["rows"]),
+    cal = cal_line(case)
+    stats["calendar_lines"] = len(cal)
+    stats["calendar_cells"] = len(cal_terms(case))
+    return {"obs": cal + obs_lines(case, vars_, rows), "viol": viol, "nontrivial": bool(nt), "key": text + repr(case["rows"]),
             "stats": stats}
 
 
@@ -1099,6 +1102,48 @@ def _aggs_in(e):
     for x in e[1:]:
         out += _aggs_in(x)
     return out
+
+
+# ------------------------------------------------------------------ calendar functions (CPython datetime, as rdflib uses it)
+
+
+def cal_terms(case):
+    """the temporal termdescs whose calendar functions are compared: the distinct ones of the rows (well-typed by
+    construction) and the random probes of case['cal'] (possibly invalid field values)"""
+    out = []
+    for d in [c for r in case["rows"] for c in r if c is not None and c[0] in "TY"] + [list(x) for x in case.get("cal") or []]:
+        if d not in out:
+            out.append(d)
+    return out[:16]
+
+
+def cal_cell(d):
+    """valid? / aware? / the point on the time line / the lexical form, from rdflib's Literal and CPython's datetime:
+    Literal(lexical, datatype).value (None = ill-typed), date.toordinal(), datetime subtraction (what datetime._cmp uses)"""
+    import datetime
+    t = mk_term(d)
+    v = t.value
+    if v is None or t.ill_typed:
+        return "0"
+    if d[0] == "Y":
+        return f"1:{v.toordinal()}:{cps(str(t))}"
+    aware = v.tzinfo is not None and v.utcoffset() is not None
+    diff = v - datetime.datetime(1, 1, 1, tzinfo=datetime.timezone.utc if aware else None)
+    return f"1:{int(aware)}:{diff.days * 86400 + diff.seconds + 86400}:{cps(str(t))}"
+
+
+def cal_line(case):
+    import logging
+    ts = cal_terms(case)
+    if not ts:
+        return []
+    lg = logging.getLogger("rdflib.term")
+    old = lg.level
+    lg.setLevel(logging.CRITICAL)  # (ill-typed probes are logged with a traceback)
+    try:
+        return ["cal " + " ".join(cal_cell(d) for d in ts)]
+    finally:
+        lg.setLevel(old)
 
 
 # ------------------------------------------------------------------ model side
@@ -1165,6 +1210,8 @@ def model_lines(case):
     t.append(str(len(q["order"])))
     for e, d in q["order"]:
         t += ["D" if d else "A"] + expr_toks(e, ix)
+    if cal_terms(case):
+        lines.append("cal " + " ".join(tok(d) for d in cal_terms(case)))
     lines.append(" ".join(t))
     return lines
 
@@ -1173,6 +1220,9 @@ def select_model_obs(case, out):
     ans = out[-1]
     if ans.startswith("bad") or "#" not in ans:
         return ["model:" + ans]
+    cal = []
+    if cal_terms(case):  # an invalid value: only that it is invalid
+        cal = ["cal " + " ".join("0" if c.startswith("0:") else c for c in out[-2].split(" "))]
     ix = var_index(case)
     names = {i: n for n, i in ix.items()}
     vs, _, body = ans.partition("#")
@@ -1180,7 +1230,7 @@ def select_model_obs(case, out):
     rows = [tuple(canon_tok(c) for c in r.split(",")) for r in body.split(";")] if body != "" else []
     if not vars_:
         rows = [() for _ in rows]
-    return obs_lines(case, vars_, rows)
+    return cal + obs_lines(case, vars_, rows)
 
 
 # ------------------------------------------------------------------ generator
@@ -1200,6 +1250,19 @@ DTS = [(2020, 1, 1, 0, 0, 0, None), (2020, 1, 1, 0, 0, 0, 0), (2020, 1, 1, 5, 30
        (2020, 1, 1, 0, 1, 0, 0), (1, 1, 1, 0, 0, 0, None), (9999, 12, 31, 23, 59, 59, 0)]
 DATES = [(2020, 1, 1), (2019, 12, 31), (2020, 2, 29), (2020, 3, 1), (2000, 1, 1), (1900, 3, 1), (1900, 2, 28), (2100, 2, 28),
          (2100, 3, 1), (2020, 12, 31), (2021, 1, 1)]
+
+
+def gen_cal_probe(rng):
+    y = rng.choice([rng.randint(1, 9999), rng.choice([1, 4, 100, 400, 1900, 2000, 2023, 2024, 2100, 9999])])
+    mo = rng.choice([rng.randint(1, 12), 2, 2, 12, 1, 13, 0][:rng.choice([1, 5, 7])])
+    d = rng.choice([rng.randint(1, 28), 28, 29, 30, 31, 1, 32, 0][:rng.choice([1, 6, 8])])
+    if rng.random() < 0.4:
+        return ["Y", y, mo, d]
+    h, mi, sec = rng.choice([rng.randint(0, 23), 0, 23, 24]), rng.choice([rng.randint(0, 59), 0, 59, 60]), rng.choice([rng.randint(0, 59), 0, 59, 60])
+    tz = rng.choice([None, None, 0, 330, -60, -840, 840, 1, -1, rng.randint(-839, 839)])
+    if tz is not None and (y < 2 or y > 9998):
+        tz = None  # (an offset that leaves year 1..9999 overflows CPython's datetime arithmetic: not modelled)
+    return ["T", y, mo, d, h, mi, sec, tz]
 
 
 def gen_time(rng, small=False):
@@ -1284,6 +1347,8 @@ def gen_case(rng, tier, i):
     pa = 0.12 if tier == "thorough" else 0.05  # share of each public-surface axis (design.d/C08.md, Surface audit)
     q = gen_query(rng, vars_, names, profiles, pa)
     case = {"src": src, "vars": vars_, "rows": rows, "q": q}
+    if rng.random() < 0.3:  # random calendar probes (field values may be invalid): only their calendar functions are compared
+        case["cal"] = [gen_cal_probe(rng) for _ in range(rng.randint(1, 4))]
     # -- how the query is put: keyword options, a prepared query object evaluated three times
     if rng.random() < 2 * pa:
         modes = ["prepared", "prepared", "initNs", "base"] + (["initBindings", "initBindings"] if src == "values" else [])
@@ -1450,6 +1515,8 @@ def gen_query(rng, vars_, names, profiles, pa=0.05):
 def shrink(case):
     q = case["q"]
     rows = case["rows"]
+    if case.get("cal"):
+        yield {k: v for k, v in case.items() if k != "cal"}
     for i in range(len(rows)):
         yield {**case, "rows": rows[:i] + rows[i + 1:]}
     for f, v in (("limit", None), ("offset", None), ("mod", None), ("having", None)):
